@@ -69,7 +69,11 @@ func buildHistory(c *core.Ctx, prop string, idx int, kind string) *histCase {
 	h := gen.NewHist(r, hc.textMode)
 	h.MaxTables = r.Range(1, 4)
 	st := model.Style{KwCase: r.Intn(3), WS: r.Intn(3), ZeroPad: r.Chance(1, 3), R: r}
-	hc.add(proto.Op{K: "cfg", N: 1}, opMeta{kind: "other"})
+	capPages := 0
+	if kind == "smallcache" {
+		capPages = r.Range(14, 28)
+	}
+	hc.add(proto.Op{K: "cfg", N: 1, M: capPages}, opMeta{kind: "other"})
 	hc.other("init")
 	hc.add(proto.Op{K: "sql", SQL: "CREATE DATABASE d1"}, opMeta{kind: "other"})
 	hc.add(proto.Op{K: "sql", SQL: "USE d1"}, opMeta{kind: "other"})
@@ -151,6 +155,42 @@ func buildHistory(c *core.Ctx, prop string, idx int, kind string) *histCase {
 		hc.other("flush")
 		hc.reopen()
 		observe(true, 1, 0)
+	case "smallcache":
+		// a page cache (14-28 pages) smaller than the catalog (10-14 tables):
+		// a statement's catalog scan pushes out pages the statement has
+		// already looked at, its table's root among them; everything is
+		// flushed after every statement (as the timer would), so that those
+		// pages are clean and evictable. A statement the small cache refuses
+		// ends the history.
+		h.MaxTables = 1 << 30
+		nt := r.Range(10, 14)
+		for i := 0; i < nt; i++ {
+			s := h.CreateTable()
+			if f, _, _, err := h.DB.Apply(s); f != "" || err != nil {
+				panic("smallcache case: create failed in model")
+			}
+			hc.addStmt(s, st)
+			hc.other("flush")
+		}
+		h.MaxTables = nt
+		n := r.Range(40, 90)
+		for i := 0; i < n; i++ {
+			if r.Bool() {
+				t := h.DB.Tables[r.Intn(3)]
+				ins := h.Insert(t, r.Range(1, 3))
+				if f, _, _, err := h.DB.Apply(ins); f != "" || err != nil {
+					continue
+				}
+				hc.addStmt(ins, st)
+			} else {
+				hc.addStmt(h.Next(), st)
+			}
+			hc.other("flush")
+			if r.Chance(1, 30) {
+				hc.reopen()
+			}
+			observe(true, 1, i)
+		}
 	case "catalog":
 		// many tables: sys_pages / sys_schema themselves split
 		h.MaxTables = 1 << 30
@@ -199,7 +239,7 @@ func historyCheck(c *core.Ctx, prop string) []core.Floor {
 	if prop == "C01" {
 		c.Rule = "seeded histories of CREATE TABLE/INSERT/UPDATE/DELETE over 1-4 tables (half as SQL text through Session.ExecQuery, half as direct values), random flush placement and reopen; SELECT * of every table and of the catalog compared with an in-memory model after every statement (small) or every 5 statements (deep/catalog). Distinct = script hash; non-trivial = the history contained a leaf split after a delete on the same table, or a root move."
 	} else {
-		c.Rule = "same histories as C01; every page reachable from every table root dumped at quiescent points (between statements, timer off) and checked for the shape invariants, with the engine's own point lookup and reverse scan run on every stored key; about one statement in twelve is followed by dropping every in-memory structure and running recovery, so that many of the walked trees were rebuilt by log replay. Distinct = script hash; non-trivial = the walk saw a tree with >= 2 levels."
+		c.Rule = "same histories as C01; every page reachable from every table root dumped at quiescent points (between statements, timer off) and checked for the shape invariants, with the engine's own point lookup and reverse scan run on every stored key; about one statement in twelve is followed by dropping every in-memory structure and running recovery, so that many of the walked trees were rebuilt by log replay; one history in seventeen runs with a page cache of 14-28 pages, smaller than its catalog of 10-14 tables, flushing after every statement, so that pages a statement has already looked at (its table's root among them) are pushed out while it scans the catalog. Distinct = script hash; non-trivial = the walk saw a tree with >= 2 levels."
 	}
 	c.Assume = []string{"the verif accessors report page state faithfully", "flush placement is driven by the checker with the timer off (same flushPages code the timer runs)"}
 	drv := mustDriver(c, false)
@@ -217,6 +257,11 @@ func historyCheck(c *core.Ctx, prop string) []core.Floor {
 	for i := 0; i < nCat; i++ {
 		cases = append(cases, buildHistory(c, prop, 2000000+i, "catalog"))
 	}
+	if prop == "C11" {
+		for i := 0; i < nSmall/16; i++ {
+			cases = append(cases, buildHistory(c, prop, 4000000+i, "smallcache"))
+		}
+	}
 	for i := 0; i < nSmall; i++ {
 		cases = append(cases, buildHistory(c, prop, i, "small"))
 	}
@@ -226,7 +271,7 @@ func historyCheck(c *core.Ctx, prop string) []core.Floor {
 	if prop == "C01" {
 		return []core.Floor{{Key: "tombstone_crossed_split", Min: 1}, {Key: "internal_splits", Min: 1}, {Key: "catalog_root_moves", Min: 1}, {Key: "dumps_compared", Min: 100}}
 	}
-	return []core.Floor{{Key: "walks", Min: 100}, {Key: "walks_depth3", Min: 1}, {Key: "pages_checked", Min: 1000}, {Key: "recoveries_that_rebuilt_pages", Min: 20}}
+	return []core.Floor{{Key: "walks", Min: 100}, {Key: "walks_depth3", Min: 1}, {Key: "pages_checked", Min: 1000}, {Key: "recoveries_that_rebuilt_pages", Min: 20}, {Key: "histories_smallcache", Min: 10}}
 }
 
 func runHistoryCase(c *core.Ctx, prop, drv string, hc *histCase) {
